@@ -386,7 +386,9 @@ def mon_C06(st):
                 t = ps.tasks.get(i)
                 if (t is not None and qj is not None and j <= qj and t.req is not None and t.req.spec["mode"] == "g"
                         and t.S is not None and t.S < j and not finished_before(t, j)
-                        and not any(x[0] <= j for x in t.cc) and not any(x[0] <= j for x in t.ec) and t.X is None):
+                        and not any(x[0] <= j for x in t.cc) and not any(x[0] <= j for x in t.ec) and t.X is None
+                        and not any(y > j for y in t.Y)):
+                    # (a worker that catches its first CancelledError and goes on — event Y — has observed it all the same)
                     out.append(("cancellation-not-delivered", j, f"pool {pi} task {i} never observed CancelledError"))
                 # a task that has already observed its cancellation is filed as cancelled: naming it again must fail
                 if t is not None and ((t.X is not None and t.X < j) or any(x[0] < j for x in t.cc)) and not finished_before(t, j - 1):
@@ -410,6 +412,8 @@ def mon_C06(st):
         for t in ps.tasks.values():
             if t.X is not None and t.tid not in named.get(pi, set()):
                 out.append(("cancelled-a-task-not-named", t.X, f"pool {pi} task {t.tid}"))
+            elif t.Y and t.tid not in named.get(pi, set()):
+                out.append(("cancelled-a-task-not-named", t.Y[0], f"pool {pi} task {t.tid} (caught the CancelledError and went on)"))
             elif t.cc and t.tid not in named.get(pi, set()):
                 # the cancel callback only runs for a task that was cancelled (also one cancelled before its first step)
                 out.append(("cancelled-a-task-not-named", t.cc[0][0], f"pool {pi} task {t.tid} (cancel callback ran)"))
@@ -993,7 +997,8 @@ def mon_C14(st):
             if t is not None and any(x[0] < j for x in t.cc):
                 out.append(("stop-returned-a-task-already-cancelled", j, f"pool {pi} task {i} was in its cancel callback"))
             if (t is not None and qj is not None and j <= qj and ps.spec["mode"] == "g" and t.S is not None and t.S < j
-                    and not finished_before(t, j) and t.X is None and not any(x[0] <= j for x in t.cc)):
+                    and not finished_before(t, j) and t.X is None and not any(y > j for y in t.Y)
+                    and not any(x[0] <= j for x in t.cc)):
                 out.append(("stopped-task-not-cancelled", j, f"pool {pi} task {i}"))
             # stopped before its first step: the worker must never begin
             if t is not None and t.S is not None and t.S > j and t.first_seen <= j:
